@@ -256,6 +256,14 @@ template <> struct Tr<Grid> {
   }
 };
 
+// constraints of an object used as the `cs` argument of the limited extrapolations of the weakly relational domains:
+// rows without variables (0 = 1 of an empty shape) are dropped, because BD_Shape/Octagonal_Shape::get_limiting_shape
+// divides by the zero coefficient of such a row (an unrelated defect, reported separately; see gen_alias.EXCLUDED)
+static Constraint_System with_variables_only(const Constraint_System& cs) {
+  Constraint_System r; if (cs.space_dimension() > 0) r.set_space_dimension(cs.space_dimension());
+  for (Constraint_System::const_iterator i = cs.begin(); i != cs.end(); ++i) if (!i->expression().all_homogeneous_terms_are_zero()) r.insert(*i);
+  return r;
+}
 // ---- weakly relational shapes and boxes over mpq (constraints() is exact) ----
 template <class S> struct ShapeBase {
   typedef S D;
@@ -282,7 +290,7 @@ template <> struct Tr<BDS> : ShapeBase<BDS> {
     else if (op == "add_constraints_of") x.add_constraints(y.constraints());
     else if (op == "refine_with_constraints_of") x.refine_with_constraints(y.constraints());
     else if (op == "limited_BHMZ05_extrapolation_assign_of" || op == "limited_CC76_extrapolation_assign_of" || op == "limited_H79_extrapolation_assign_of") {
-      int z = tk.nextl(); if (!pool.count(z)) throw CaseErr("unknown object"); Constraint_System cs = pool[z]->constraints();
+      int z = tk.nextl(); if (!pool.count(z)) throw CaseErr("unknown object"); Constraint_System cs = with_variables_only(pool[z]->constraints());
       if (op[8] == 'B') x.limited_BHMZ05_extrapolation_assign(y, cs); else if (op[8] == 'C') x.limited_CC76_extrapolation_assign(y, cs);
       else x.limited_H79_extrapolation_assign(y, cs);
     }
@@ -301,7 +309,7 @@ template <> struct Tr<Oct> : ShapeBase<Oct> {
     else if (op == "add_constraints_of") x.add_constraints(y.constraints());
     else if (op == "refine_with_constraints_of") x.refine_with_constraints(y.constraints());
     else if (op == "limited_BHMZ05_extrapolation_assign_of" || op == "limited_CC76_extrapolation_assign_of") {
-      int z = tk.nextl(); if (!pool.count(z)) throw CaseErr("unknown object"); Constraint_System cs = pool[z]->constraints();
+      int z = tk.nextl(); if (!pool.count(z)) throw CaseErr("unknown object"); Constraint_System cs = with_variables_only(pool[z]->constraints());
       if (op[8] == 'B') x.limited_BHMZ05_extrapolation_assign(y, cs); else x.limited_CC76_extrapolation_assign(y, cs);
     }
     else return false;
@@ -318,7 +326,7 @@ template <> struct Tr<RBox> : ShapeBase<RBox> {
     else if (op == "add_constraints_of") x.add_constraints(y.constraints());
     else if (op == "refine_with_constraints_of") x.refine_with_constraints(y.constraints());
     else if (op == "limited_CC76_extrapolation_assign_of") {
-      int z = tk.nextl(); if (!pool.count(z)) throw CaseErr("unknown object"); Constraint_System cs = pool[z]->constraints();
+      int z = tk.nextl(); if (!pool.count(z)) throw CaseErr("unknown object"); Constraint_System cs = with_variables_only(pool[z]->constraints());
       x.limited_CC76_extrapolation_assign(y, cs);
     }
     else return false;
